@@ -60,6 +60,19 @@ CLAIMED["C16"] = dict(
     technique="runtime monitoring: replay of identical inputs in varied contexts with a byte-equality oracle",
 )
 
+CLAIMED["C02"] = dict(
+    category="exploration",
+    text="Generated programs, AST-level mutants that the real checker still accepts, and multi-module programs are compiled "
+         "and run under 8-32 combinations of the five boolean compiler settings; three monitors watch every accepted "
+         "run: host panic / dead worker, internal shape complaints in the error text, and a type-directed walk of the "
+         "returned value against the type the checker reported.",
+    design_ref="DESIGN.md §4 C02",
+    note="Acceptance is taken from the real checker (typecheck_str, judged separately from the run); crashes of the "
+         "front end on programs it does not accept are C09's. Known findings (F7, F17-F22) attributed by panic site, "
+         "workload family or neutralising rewrite / twin program.",
+    technique="runtime monitoring: accepted-program population x settings matrix with panic, error-text and type-directed value-shape monitors",
+)
+
 NOT_YET = "check not built yet in this session (work in progress; see DESIGN.md for the planned monitor)"
 
 def main():
